@@ -131,6 +131,27 @@ def sym_eq(a, b):
         return False
 
 
+SUM = sp.Function("SUM")
+
+
+def list_sum(cx, w):
+    """Sum over the elements of configuration list cx of the per-element
+    polynomial w (in the generic-element symbols), with numeric content pulled
+    out so that SUM is linear in constants."""
+    w = sp.expand(w)
+    if w == 0:
+        return sp.Integer(0)
+    if not w.free_symbols:
+        return w * sp.Symbol("n_" + "".join(ch if ch.isalnum() else "_" for ch in cx), integer=True, positive=True)
+    c, prim = sp.factor_terms(w).as_coeff_Mul()
+    try:
+        c2, prim2 = sp.Poly(w, *sorted(w.free_symbols, key=lambda x: x.name)).primitive()
+        c, prim = c2, prim2.as_expr()
+    except Exception:
+        pass
+    return c * SUM(sp.Symbol("L_" + "".join(ch if ch.isalnum() else "_" for ch in cx)), sp.expand(prim))
+
+
 class Frame:
     def __init__(self, func, callsite=None):
         self.func = func
@@ -173,6 +194,7 @@ class Interp:
         self.hooks = hooks or {}
         self.cmp_info = {}
         self.warnings = []
+        self.assign_ctx = {}
 
     # ------------------------------------------------------------------ events
     def emit(self, kind, node, st, **d):
@@ -425,6 +447,7 @@ class Interp:
             v2 = self._ctrl(v, st)
             self.emit("assign", stmt, st, name=t.id, val=v2, op=op, rhs=v, prev=st.env.get(t.id))
             st.env[t.id] = v2
+            self.assign_ctx[(len(self.frames), t.id)] = (tuple(self.loops), getattr(stmt, "lineno", 0), self._elem_prov(v2))
         elif isinstance(t, (ast.Tuple, ast.List)):
             items = None
             if v.items is not None and isinstance(v.items, (list, tuple)) and len(v.items) == len(t.elts):
@@ -497,6 +520,8 @@ class Interp:
             shape = bv.shape
         for sl in rest:
             sub_vals.append(self.eval_slice(sl, st))
+        if len(rest) == 1:
+            self.note_offslice(stmt, st, Val("arr", shape=shape, obj=oid, view=view), rest[0], sub_vals[0], unparse(target)[:100])
         idx_dep = frozenset()
         for sv in sub_vals:
             idx_dep |= sv.dep
@@ -697,15 +722,27 @@ class Interp:
             passes.append("first")
         passes += ["generic", "generic2"]
         pre = st.fork()  # zero-iteration state
+        inits = {nm: st.env[nm].sym for nm in carried if nm in st.env}
+        offinfo = {}
         for tag in passes:
             elem = elems(tag)
             self.loops.append(LoopCtx(s, lk, cx, tag, unparse(s.target)))
-            if tag != "first" or not peel:
-                pass
             if tag in ("generic",) and carried:
+                first_adv = {nm: (sp.expand(st.env[nm].sym - inits[nm]) if (peel and nm in st.env and st.env[nm].sym is not None and inits.get(nm) is not None) else None) for nm in carried}
                 self.havoc_carried(s, carried, st, peel)
+                offs = {nm: st.env[nm].sym for nm in carried if nm in st.env}
             self.assign(s.target, elem, st, s, "=")
             st = self._run_body(s, st)
+            if tag == "generic" and carried and st is not None:
+                for nm in carried:
+                    cur = st.env.get(nm)
+                    w = None
+                    if cur is not None and cur.kind == "num" and cur.sym is not None and nm in offs:
+                        w = sp.expand(cur.sym - offs[nm])
+                        if any(x.name.startswith("OFF_") for x in w.free_symbols):
+                            w = None
+                    offinfo[nm] = w
+                    self.emit("offset", s, st, name=nm, init=inits.get(nm), adv=w, off=offs.get(nm), first_adv=first_adv.get(nm), list_cx=cx, loop_kind=lk, peeled=peel)
             self.loops.pop()
             if st is None:
                 return None
@@ -713,7 +750,7 @@ class Interp:
         # when the list is empty; surfaces lists are non-empty by contract.
         if lk not in ("cfglist",):
             st = st.merge(pre)
-        self.finish_carried(s, carried, st)
+        self.finish_carried(s, carried, st, inits, offinfo, cx, lk)
         if s.orelse:
             st = self.exec_block(s.orelse, st)
         return st
@@ -824,10 +861,18 @@ class Interp:
             off = sp.Symbol("OFF_%s_L%d" % (nm, s.lineno), integer=True, nonnegative=True)
             st.env[nm] = num(off, cfg=True, cx=None).with_(extra=("offset", nm, s.lineno))
 
-    def finish_carried(self, s, carried, st):
+    def finish_carried(self, s, carried, st, inits=None, offinfo=None, cx=None, lk=None):
+        """After the loop a carried offset is init + SUM over the list of its
+        per-iteration advance (an uninterpreted, linear sum symbol)."""
         for nm in carried:
             cur = st.env.get(nm)
             if cur is None:
+                continue
+            w = (offinfo or {}).get(nm)
+            init = (inits or {}).get(nm)
+            if w is not None and init is not None and lk == "cfglist" and cx:
+                tot = sp.expand(init + list_sum(cx, w))
+                st.env[nm] = num(tot, cfg=True, cx=str(tot)).with_(extra=("total", nm, s.lineno))
                 continue
             tot = sp.Symbol("TOT_%s_L%d" % (nm, s.lineno), integer=True, nonnegative=True)
             st.env[nm] = num(tot, cfg=True, cx="TOT_%s_L%d" % (nm, s.lineno)).with_(extra=("total", nm, s.lineno))
@@ -971,9 +1016,35 @@ class Interp:
             return "<%s>" % r.sym
         return None
 
+    def _elem_prov(self, v):
+        """Configuration-list element the value was derived from, if any."""
+        if v.sym is not None:
+            for x in v.sym.free_symbols:
+                for suf, cx in (("_i", "surfaces"), ("_0", "surfaces"), ("_si", "sections"), ("_s0", "sections")):
+                    if x.name.endswith(suf) and x.name[:2] in ("nx", "ny"):
+                        return cx
+        if v.cx:
+            for lst in ("surfaces", "sections"):
+                if lst + "[i]" in v.cx or lst + "[0]" in v.cx:
+                    return lst
+        if v.tmpl:
+            for lst in ("surfaces", "sections"):
+                if lst + "[i]" in v.tmpl or lst + "[0]" in v.tmpl:
+                    return lst
+        return None
+
     def ex_Name(self, n, st):
         v = st.env.get(n.id)
         if v is not None:
+            if self.loops and isinstance(n.ctx, ast.Load):
+                ac = self.assign_ctx.get((len(self.frames), n.id))
+                if ac is not None and ac[2] is not None:
+                    aloops, aline, prov = ac
+                    cur_nodes = [l.node for l in self.loops]
+                    inner = [l for l in self.loops if l.kind in ("cfglist", "range") and (l.kind == "cfglist" and l.cx.split("[")[-1].strip("']") == prov or prov in (l.cx or ""))]
+                    foreign = [l for l in aloops if l.node not in cur_nodes and (l.kind in ("cfglist", "range")) and (prov in (l.cx or ""))]
+                    if inner and foreign:
+                        self.emit("stale_elem", n, st, name=n.id, assigned_line=aline, loop_a=foreign[-1].node.lineno, loop_b=inner[-1].node.lineno, list_cx=prov, val=v)
             return v
         fr = self.frames[-1]
         mod = fr.func.mod
@@ -1172,6 +1243,7 @@ class Interp:
         if b.kind == "str":
             return Val("str", cfg=b.cfg, dep=b.dep)
         # array subscript
+        self.note_offslice(n, st, b, n.slice, sv, unparse(n)[:100])
         shape, is_view = self.sub_shape(b.shape, n.slice, sv)
         dep = b.dep | sv.dep
         if b.obj is not None and b.obj in st.heap and b.kind != "cfgval":
@@ -1189,6 +1261,27 @@ class Interp:
             extra=("sub", b, n.slice) if b.obj is not None else None,
         )
         return res
+
+    def note_offslice(self, n, st, base, slnode, sv, text):
+        elts = list(slnode.elts) if isinstance(slnode, ast.Tuple) else [slnode]
+        vals = list(sv.items) if (sv.kind == "tuple" and isinstance(slnode, ast.Tuple)) else [sv]
+        shape = base.shape
+        if shape is None and base.obj is not None and base.view == "whole" and base.obj in st.heap:
+            shape = st.heap[base.obj].shape
+        ax = 0
+        for e, v in zip(elts, vals):
+            if v.kind == "none":
+                continue
+            if v.kind == "slice":
+                lo, hi, stp = v.extra
+                syms = set()
+                for x in (lo, hi):
+                    if x is not None and x != "?":
+                        syms |= {y.name for y in sp.sympify(x).free_symbols}
+                if any(y.startswith("OFF_") for y in syms):
+                    dim = shape[ax] if (shape is not None and ax < len(shape)) else None
+                    self.emit("offslice", n, st, lo=lo, hi=hi, step=stp, axis=ax, dim=dim, text=text, base=base, whole_view=(base.view == "whole" or base.obj is None))
+            ax += 1
 
     def sub_shape(self, shape, slnode, sv):
         """Shape of x[sl]; is_view False for fancy indexing."""
@@ -1569,6 +1662,10 @@ class Interp:
                     sym = sp.expand(sym) if not sym.has(sp.floor) else sym
             except Exception:
                 sym = None
+        if op is ast.Add:
+            for x, y in ((a, b), (b, a)):
+                if x.kind == "num" and x.sym is not None and x.obj is None and any(z.name.startswith("OFF_") for z in x.sym.free_symbols) and y.kind == "arr":
+                    self.emit("offadd", where, st, off=x.sym, arr=y, text=unparse(where)[:100] if where is not None else "")
         shape = self.bshape(a, b) if op is not ast.MatMult else None
         kind = "num" if (a.kind == "num" and b.kind == "num") else ("arr" if {a.kind, b.kind} <= {"num", "arr", "cfgval", "unknown"} else "unknown")
         cx = None
